@@ -746,7 +746,10 @@ func buildCatalogue() []*entry {
 	for _, sel := range []string{"none", "all", "listed"} {
 		sel := sel
 		add(&entry{ID: "pkg-nonexistent/" + sel, Level: "package", MustFail: true, Apply: func(t *rapid.T, b *builder) {
-			path := rapid.SampledFrom([]string{b.ctx.Mod + "/nosuchdir", b.pkgPath(b.tgt) + "/missing", "example.org/elsewhere/pkg", "nosuchstdpkg"}).Draw(t, "nonexistent-path")
+			// the last-but-one spelling is a proper textual prefix of an existing package's path
+			// (api next to apiv2): it must not be mistaken for a parent of that package
+			existing := b.pkgPath(b.tgt)
+			path := rapid.SampledFrom([]string{b.ctx.Mod + "/nosuchdir", existing[:len(existing)-1], existing + "/missing", existing[:len(existing)-1], "example.org/elsewhere/pkg", "nosuchstdpkg"}).Draw(t, "nonexistent-path")
 			pk := b.cfg.Map("packages")
 			if rapid.Bool().Draw(t, "first") {
 				pk.SetFirst(path, selectionNode(sel, "Thing"))
